@@ -14,7 +14,7 @@
 //! history on the whole stack; opaque codecs enter as the table of (input, output) pairs seen between two
 //! layers), BatchZipOffsetBlobStoreBuilder (`XBatch`: the add_record / flush_batch calls made, ids, byte-exact image or
 //! refusal), NestLoudsTrieBlobStoreBuilder (`XNltb`: entries with repeated keys, reads by key and by id of the finished
-//! store), MemoryBlobStore::from_data + history (`XFromData`).  Everything else is S-only (oracle).
+//! store), MemoryBlobStore::from_data + history (`XFromData`), ZeroLengthBlobStore::finish(n) + history (`XZeroFinish`).  Everything else is S-only (oracle).
 use crate::util::*;
 #[path = "c03_b.rs"]
 mod b;
@@ -34,7 +34,7 @@ use zipora::succinct::rank_select::RankSelectInterleaved256;
 use zipora::RecordId;
 
 const HEADER: &str = r#"From ZV.Common Require Import Base Run.
-From ZV.C03 Require Import Model ModelStore ModelWrap ModelCached ModelDictZip ModelPlain ModelZero ModelBatch ModelNltb ModelCases.
+From ZV.C03 Require Import Model ModelStore ModelWrap ModelCached ModelDictZip ModelPlain ModelZero ModelBatch ModelNltb ModelFromData ModelZeroFinish ModelCases.
 Open Scope N_scope.
 Definition case_t : Type := xcase.
 Definition ok (c : case_t) : bool := check_xcase c.
@@ -1565,9 +1565,32 @@ fn run_build(cx: &mut Ctx, case: &Value, _force_coq: bool) {
             }
             "zerofinish" => {
                 let n = recs.len();
-                let s = ZeroLengthBlobStore::finish(n);
+                let mut s = ZeroLengthBlobStore::finish(n);
                 let empties: Vec<Vec<u8>> = vec![vec![]; n];
-                check_built(&s, &empties, "finish(n)")
+                if let Some(m) = check_built(&s, &empties, "finish(n)") { return Some(m); }
+                // the finished store through a short history, also as a Coq case (ModelZeroFinish.v): reads around n, len, two puts
+                // of the empty record (ids n and n + 1), the refused removal of an absent id
+                let mut shadow: HashMap<RecordId, Vec<u8>> = (0..n as u32).map(|i| (i, vec![])).collect();
+                let (mut cops, mut cobs): (Vec<String>, Vec<String>) = (vec![], vec![]);
+                let mut reads = |s: &ZeroLengthBlobStore, shadow: &HashMap<RecordId, Vec<u8>>, cops: &mut Vec<String>, cobs: &mut Vec<String>, ids: &[u32]| -> Option<String> {
+                    for &id in ids { if let Some(m) = probe(s, id, shadow) { return Some(format!("finish({}) then history: {}", n, m)); } cops.push(format!("XO (MQuery {})", id)); cobs.push(obs_of(shadow.get(&id))); }
+                    None
+                };
+                let around = [0u32, (n as u32).wrapping_sub(1), n as u32, n as u32 + 1, u32::MAX];
+                if let Some(m) = reads(&s, &shadow, &mut cops, &mut cobs, &around) { return Some(m); }
+                cops.push("XO MLen".into()); cobs.push(format!("[{}]%N", s.len()));
+                for k in 0..2u32 {
+                    match s.put(&[]) { Ok(id) => { if id != n as u32 + k { return Some(format!("put after finish({}) returned id {}", n, id)); } shadow.insert(id, vec![]); cops.push("XO (MPut [])".into()); cobs.push(format!("[{}]%N", id)); }
+                                       Err(e) => return Some(format!("put of an empty record after finish({}) failed: {}", n, e)) }
+                }
+                let absent = n as u32 + 7;
+                let removed = s.remove(absent).is_ok();
+                cops.push(format!("XO (MRemove {})", absent)); cobs.push(format!("[{}]%N", removed as u8));
+                if let Some(m) = reads(&s, &shadow, &mut cops, &mut cobs, &[n as u32, n as u32 + 1, n as u32 + 2, absent]) { return Some(m); }
+                cops.push("XO MLen".into()); cobs.push(format!("[{}]%N", s.len()));
+                if s.len() != n + 2 { return Some(format!("len() = {} after finish({}) and two puts", s.len(), n)); }
+                coq_term = Some(format!("XZeroFinish {} [{}] [{}]", n, cops.join("; "), cobs.join("; ")));
+                None
             }
             "memory_from_data" => {
                 let mut m: HashMap<RecordId, Vec<u8>> = HashMap::new();
@@ -2276,7 +2299,7 @@ pub fn run(args: &Args) {
     }
     cx.sum.dist_max("coq_cases", cx.shards.len() as u64);
     for (cell, _) in cx.sum.cells.clone() {
-        let modelled = cell.strip_prefix("history/").map(|sp| xmodel_of(sp).is_some()).unwrap_or(false) || cell.starts_with("build/zipoffset:c0") || cell.starts_with("build/zipoffset_batch:c0") || cell.starts_with("build/nlt_builder") || cell == "build/memory_seeded" || cell.starts_with("build/mixed") || cell.starts_with("build/simplezip") || cell == "build/zeroputs" || cell == "build/plain_seeded";
+        let modelled = cell.strip_prefix("history/").map(|sp| xmodel_of(sp).is_some()).unwrap_or(false) || cell.starts_with("build/zipoffset:c0") || cell.starts_with("build/zipoffset_batch:c0") || cell.starts_with("build/nlt_builder") || cell == "build/memory_seeded" || cell.starts_with("build/mixed") || cell.starts_with("build/simplezip") || cell == "build/zeroputs" || cell == "build/zerofinish" || cell == "build/plain_seeded";
         if !modelled { cx.sum.cell_status(&cell, "S-only"); }
     }
     let sh = cx.shards.write(&args.out);
